@@ -10,8 +10,8 @@ P = {
          "Generated histories of every public operation over structured and raw input never panic in an overflow-checked build and never exceed the watchdog; cases built for recursion depth and allocation size run in child processes so that an abort is seen; this is exploration, not a termination proof.", "§4 C01"),
  "C02": ("invariant checked after every call over generated histories (raw + tracked by reference model)",
          "Geometry invariants are asserted after every single public call (incl. each feed()) of generated histories with resizes and buffer switches; wrap-pending legitimacy is decided by the one-step reference model on in-domain input.", "§4 C02"),
- "C03": ("exhaustive differential against an independent table-driven reference parser + metamorphic memorylessness",
-         "All 14 states x all Unicode scalar values (several backgrounds each), the full dispatch table and strings of up to 100 000 characters are compared exhaustively with a reference parser transcribed from the Williams diagram; all ordered pairs of a 635-sequence basis check memorylessness; an end-to-end leg compares Vt::feed_str with Vt::feed; random streams add depth.", "§4 C03"),
+ "C03": ("exhaustive differential against an independent table-driven reference parser + metamorphic memorylessness + metamorphic relation for non-input calls between the pieces of one sequence",
+         "All 14 states x all Unicode scalar values (several backgrounds each), the full dispatch table and strings of up to 100 000 characters are compared exhaustively with a reference parser transcribed from the Williams diagram; all ordered pairs of a 635-sequence basis check memorylessness; an end-to-end leg compares Vt::feed_str with Vt::feed; random streams add depth; a resize or read-only call between two pieces of one sequence must not change its parse (Vt level, probe battery).", "§4 C03"),
  "C04": ("bounded-exhaustive + random model-based testing against a one-step reference spec with resynchronisation",
          "Every print-class step of enumerated tiny-screen op sequences and random histories is compared cell-for-cell (chars, pens, wrap marks, cursor) with an executable spec written from the statement.", "§4 C04"),
  "C05": ("bounded-exhaustive + random model-based testing against a one-step reference spec",
@@ -26,13 +26,13 @@ P = {
          "Generated texts must come back from text() and from TextUnwrapper exactly, and identically at two different sizes; a fixed text set is swept over all widths/heights.", "§4 C09"),
  "C10": ("metamorphic relation on logical lines / logical cursor across generated resize chains",
          "The logical-line and logical-cursor relation stated by the property is checked before/after every resize of generated primary-screen histories.", "§4 C10"),
- "C11": ("round-trip through dump() judged by a behavioural probe battery + random continuations",
+ "C11": ("round-trip through dump() judged by a behavioural probe battery + random continuations + exhaustive short parser prefixes (well-formed and malformed)",
          "Original and dump-restored terminals are compared under a fixed probe battery exposing each hidden component, every cut position of short histories, and random continuations; three listed known findings (K1 excluded by history, K2 and K3 recognised by semantic signatures on replicas) are counted, not reported; their neighbourhood is enumerated and must pass.", "§4 C11"),
- "C12": ("differential: whole input vs every chunking (all single cuts <=64 chars, all cut subsets <=10 chars, per-char feed_str and feed())",
+ "C12": ("differential: whole input vs every chunking (all single cuts <=64 chars, all cut subsets <=10 chars, per-char feed_str and feed(), floods of up to 140 000 scrolls in one call)",
          "All chunkings of generated inputs (structured and raw) must agree on visible state, lines() (unlimited), and hidden modes under the probe battery.", "§4 C12"),
  "C13": ("invariant after every feed_str/resize over generated scroll-heavy histories with all drain patterns",
          "The retention bound, the L=0 and the alternate-screen clauses are asserted after every call across 12 limits, resizes and partially consumed Changes.", "§4 C13"),
- "C14": ("differential: limit-L terminal + collected scrollback vs unlimited terminal, exact Line equality; TextCollector consequence",
+ "C14": ("differential: limit-L terminal + collected scrollback vs unlimited terminal, exact Line equality, pieces routed through feed_str and feed(); TextCollector consequence",
          "For generated sessions the handed-out lines followed by lines() must equal the unlimited terminal's lines exactly; TextCollector must agree across limits and chunkings.", "§4 C14"),
  "C15": ("pure observation: view snapshot diff vs Changes.lines after every call, enumerated single commands + random",
          "Every row that differs between before and after a feed_str/resize call must be reported; checked for every mutating command alone and in random multi-command calls.", "§4 C15"),
